@@ -466,6 +466,91 @@ CANARIES = [
 ]
 
 
+class LimitInOtherSRS(Harness):
+    """a limited_to geometry given in another SRS than the request: GeomCoverage.contains / intersects bring the request's
+    point or rectangle into the SRS of the limit (request SRS -> limit SRS, not the other way round) before asking the geometry.
+    The projection (proj, FFI) is an axis-aligned affine stub, the geometry (shapely) a rectangle stub; query point / rectangle
+    and the limit rectangle are solver variables."""
+    modules = ['mapproxy.util.coverage']
+    functions = ['GeomCoverage.contains', 'GeomCoverage.intersects', 'GeomCoverage._geom_in_coverage_srs']
+
+    @classmethod
+    def build(cls, L, cfg):
+        return dict(cv=L.mods['mapproxy.util.coverage'])
+
+    @classmethod
+    def inputs(cls, ctx, cfg):
+        from engine.symex import real_var
+        p = [real_var(n) for n in ('px', 'py', 'qw', 'qh')]
+        r = [real_var(n) for n in ('lx0', 'ly0', 'lx1', 'ly1')]
+        lim = 10 ** 6
+        assume(AND(p[0] >= -lim, p[0] <= lim, p[1] >= -lim, p[1] <= lim, p[2] > 0, p[2] <= lim, p[3] > 0, p[3] <= lim,
+                   r[0] >= -lim, r[1] >= -lim, r[2] <= lim, r[3] <= lim, r[2] - r[0] >= 1, r[3] - r[1] >= 1))
+        return dict(p=p, r=r)
+
+    @classmethod
+    def prop(cls, ctx, cfg, p, r):
+        import threading
+        cv = ctx['cv']
+        sx, sy, ox, oy = cfg['affine']
+
+        class Srs(object):
+            def __init__(self, code, fwd):
+                self.srs_code, self.fwd = code, fwd
+
+            def _map(self, other, x, y):
+                if other is self:
+                    return x, y
+                return (sx * x + ox, sy * y + oy) if self.fwd else ((x - ox) / sx, (y - oy) / sy)
+
+            def transform_bbox_to(self, other, b, with_points=16):
+                x0, y0 = self._map(other, b[0], b[1])
+                x1, y1 = self._map(other, b[2], b[3])
+                return (x0, y0, x1, y1)
+
+            def transform_to(self, other, pt):
+                return self._map(other, pt[0], pt[1])
+
+            def __eq__(self, o):
+                return o is self
+
+            def __ne__(self, o):
+                return o is not self
+            __hash__ = object.__hash__
+        req_srs, lim_srs = Srs('REQUEST', True), Srs('LIMIT', False)
+
+        class Rect(object):
+            """the limit geometry (stands for the prepared shapely polygon)"""
+            def contains(self, g):
+                if g[0] == 'point':
+                    x, y = g[1]
+                    return AND(x > r[0], x < r[2], y > r[1], y < r[3])
+                b = g[1]
+                return AND(b[0] >= r[0], b[1] >= r[1], b[2] <= r[2], b[3] <= r[3])
+
+            def intersects(self, g):
+                b = g[1] if g[0] == 'bbox' else (g[1][0], g[1][1], g[1][0], g[1][1])
+                return AND(b[0] <= r[2], b[2] >= r[0], b[1] <= r[3], b[3] >= r[1])
+
+        class _Base(object):
+            pass
+        cv.__dict__['shapely'] = types.SimpleNamespace(geometry=types.SimpleNamespace(Point=lambda g: ('point', tuple(g)), base=types.SimpleNamespace(BaseGeometry=_Base)))
+        cv.__dict__['bbox_polygon'] = lambda b: ('bbox', tuple(b))
+        cov = cv.GeomCoverage.__new__(cv.GeomCoverage)
+        cov.srs = lim_srs if not cfg.get('same_srs') else req_srs
+        cov._prepared_geom, cov._prepared_counter, cov._prepared_max = Rect(), 0, 10 ** 9
+        cov._prep_lock = threading.Lock()
+        cov.clip = False
+        tx, ty = req_srs._map(cov.srs, p[0], p[1])
+        if cfg['query'] == 'point':
+            got = cov.contains((p[0], p[1]), req_srs)
+            return got == Rect().contains(('point', (tx, ty)))
+        tx1, ty1 = req_srs._map(cov.srs, p[0] + p[2], p[1] + p[3])
+        box = (p[0], p[1], p[0] + p[2], p[1] + p[3])
+        tb = ('bbox', (tx, ty, tx1, ty1))
+        return AND(cov.contains(box, req_srs) == Rect().contains(tb), cov.intersects(box, req_srs) == Rect().intersects(tb))
+
+
 def obligations(tier, seed):
     specs = []
     for svc in ('tms', 'kml', 'wmts', 'wmts.featureinfo'):
@@ -476,6 +561,14 @@ def obligations(tier, seed):
             specs.append(spec(MOD, 'WMSAuth', 'wms-%s/request-%s' % (feature, r), cfg=dict(feature=feature, request=r), cost=40))
     specs.append(spec(MOD, 'WMSAuth', 'wms-map/request-g+c/on-source-errors-notify', cfg=dict(feature='map', request='g+c', on_error='notify'), cost=40))
     specs.append(spec(MOD, 'WMSAuth', 'wms-map/request-g+c/limited-by-srs-extent', cfg=dict(feature='map', request='g+c', srs_extent=True), cost=40))
+    for q in ('point', 'rectangle'):
+        for aff in ([2.0, 3.0, 100.0, -50.0], [0.5, 0.25, -7.0, 11.0]):
+            specs.append(spec(MOD, 'LimitInOtherSRS', 'limit-in-other-srs/%s/affine%s' % (q, aff[:2]), cfg=dict(query=q, affine=aff), cost=3))
+        specs.append(spec(MOD, 'LimitInOtherSRS', 'limit-in-other-srs/%s/same-srs' % q, cfg=dict(query=q, affine=[2.0, 3.0, 100.0, -50.0], same_srs=True), cost=3))
+    specs.append(spec(MOD, 'LimitInOtherSRS', 'twin/LimitInOtherSRS', kind='witness', cfg=dict(query='point', affine=[2.0, 3.0, 100.0, -50.0])))
+    specs.append(spec(MOD, 'LimitInOtherSRS', 'canary/request rectangle not brought into the SRS of the limit', kind='canary', cfg=dict(query='rectangle', affine=[2.0, 3.0, 100.0, -50.0]), cost=3,
+                      patches={'mapproxy.util.coverage': [("            if srs != self.srs:\n                geom = srs.transform_bbox_to(self.srs, geom)\n            geom = bbox_polygon(geom)",
+                                                            "            geom = bbox_polygon(geom)")]}))
     specs.append(spec(MOD, 'TileAuth', 'twin/TileAuth', kind='witness', cfg=dict(service='tms')))
     specs.append(spec(MOD, 'WMSAuth', 'twin/WMSAuth', kind='witness', cfg=dict(feature='map', request='g')))
     for label, h, patches, c in (CANARIES if tier == 'thorough' else CANARIES[:2] + CANARIES[4:10]):
